@@ -57,7 +57,11 @@ OperandPrograms ==
                                          I("PUSH", 0), I("PUSH", 1), I("PUSH", 2), I("PUSH", 3), I("PUSH", 4), I("P5", 15),
                                          I("PUSH", 1), I("P1", 16), I("PUSH", 2), I("P1", 17), I("PUSH", 3), I("P1", 57),
                                          I("PUSH", 1), I("PUSH", 2), I("A2", 73), I("POP", 0), I("P0", 48), I("P0", 49)>>] : a \in Extremes, b \in Extremes}
-ProgramsArith == ArithPrograms \cup OperandPrograms
+\* delta base / shift set to extreme values, then one delta exception whose ppem selector matches the instance (16 ppem)
+DeltaPrograms ==
+  {[funcs |-> NoFuncs, glyph |-> <<I("PUSH", v), I("P1", s), I("PUSH", a), I("PUSH", b), I("PUSH", 1), I("P3", d)>>] :
+     v \in {-1, -2, MinI, 0, 6, 7, 100, MaxI}, s \in {95, 94}, a \in {120, 127, 1}, b \in {120, 127, 1}, d \in {115, 116, 117, 93, 113, 114}}
+ProgramsArith == ArithPrograms \cup OperandPrograms \cup DeltaPrograms
 ProgramsThorough == ProgramsQuick \cup {[funcs |-> <<b1, b2>>, glyph |-> g] : b1 \in {<<I("PUSH", 1)>>, <<I("POP", 0)>>}, b2 \in {<<>>}, g \in SeqsUpTo(Alphabet, 4)}
 
 Dump == (status # "run") => PrintT(<<"PROG", ToJson([funcs |-> p.funcs, glyph |-> p.glyph, outcome |-> status, steps |-> steps])>>)
